@@ -73,6 +73,62 @@ func run(c *vkit.Collector, rng *vkit.Rng, budget int) {
 	g.textCases(ids)
 	g.searchCurve()
 	g.searchNeighbors(ids)
+	g.searchVolume()
+}
+
+// searchVolume: many more [S]-only evaluations (no Coq cases): the numeric hypotheses
+// H-UVROUNDTRIP / H-FACEUV / H-WRAP and the point property at boundary-targeted inputs.
+func (g *gen) searchVolume() {
+	n := 20000 * g.budget
+	for q := 0; q < n; q++ {
+		g.searchUV(g.gridU())
+	}
+	M := 1 << 30
+	edge := []int{-1, M, 0, M - 1, 1, M - 2, M / 2, M/2 - 1}
+	for q := 0; q < 4000*g.budget; q++ {
+		f := g.rng.Intn(6)
+		i, j := edge[g.rng.Intn(2)], g.rng.Intn(M)
+		switch g.rng.Intn(4) {
+		case 0:
+			j = edge[g.rng.Intn(len(edge))]
+		case 1:
+			j = (g.rng.Intn(1<<uint(g.rng.Intn(31))) << uint(g.rng.Intn(8))) & (M - 1)
+		}
+		if g.rng.Bool() {
+			i, j = j, i
+		}
+		g.c.Eval(fmt.Sprintf("wrapS:%d/%d/%d", f, i, j), true)
+		g.searchWrap(f, i, j)
+	}
+	for q := 0; q < 3000*g.budget; q++ {
+		f := g.rng.Intn(6)
+		u, v := g.gridU(), g.gridU()
+		if g.rng.Intn(3) == 0 {
+			v = g.rng.Range(-1, 1)
+		}
+		r := s2.VerifC01FaceUVToXYZ(f, u, v)
+		if g.rng.Intn(4) == 0 {
+			r = r.Normalize()
+		}
+		pt := s2.Point{Vector: r}
+		ff, uu, vv := s2.VerifC01XYZToFaceUV(r)
+		leaf := s2.VerifC01CellIDFromPoint(pt)
+		key := fmt.Sprintf("%x/%x/%x", math.Float64bits(r.X), math.Float64bits(r.Y), math.Float64bits(r.Z))
+		g.c.Eval("pointS:"+key, true)
+		// H-FACEUV: the projection on the chosen face succeeds with |u|,|v| <= 1
+		pu, pv, ok := s2.VerifC01FaceXYZToUV(ff, pt)
+		if !ok || pu != uu || pv != vv || !(math.Abs(uu) <= 1 && math.Abs(vv) <= 1) {
+			g.c.Violate("Hyp.FACEUV", "projection of p on its own face fails or leaves [-1,1]", map[string]interface{}{"p": []float64{r.X, r.Y, r.Z}, "bits": key})
+		}
+		for l := 0; l <= 30; l++ {
+			if !s2.CellFromCellID(leaf.Parent(l)).ContainsPoint(pt) {
+				g.c.Violate("Point.AncestorContains", fmt.Sprintf("the level-%d ancestor of CellFromPoint(p) does not contain p", l),
+					map[string]interface{}{"p": []float64{r.X, r.Y, r.Z}, "bits": key, "leaf": fmt.Sprintf("%016x", uint64(leaf)), "level": l})
+				break
+			}
+		}
+		g.searchPoint(pt, leaf, ff)
+	}
 }
 
 // tables: all 2x1024 entries of the init()-built tables and the literal tables.
@@ -119,7 +175,7 @@ func (g *gen) idSet() []s2.CellID {
 	var ids []s2.CellID
 	maxEx, shard := 3, 4
 	if g.budget >= 8 {
-		maxEx, shard = 5, 1
+		maxEx, shard = 4, 1
 	}
 	pick := int(g.c.Seed % uint64(shard))
 	for l := 0; l <= maxEx; l++ {
@@ -178,12 +234,12 @@ func (g *gen) idCases(id s2.CellID) {
 		vkit.Z(s2.VerifC01DistanceFromBegin(id)), zc(s2.VerifC01ImmediateParent(id)),
 		zc(ch[0]), zc(ch[1]), zc(ch[2]), zc(ch[3]))))
 	// per level
-	lv := []int{0, 30, id.Level()}
+	lv := []int{id.Level()}
 	if id.Level() > 0 {
-		lv = append(lv, id.Level()-1, g.rng.Intn(id.Level()+1))
+		lv = append(lv, []int{id.Level() - 1, 0, g.rng.Intn(id.Level() + 1)}[g.rng.Intn(3)])
 	}
 	if id.Level() < 30 {
-		lv = append(lv, id.Level()+1, id.Level()+g.rng.Intn(31-id.Level()))
+		lv = append(lv, []int{id.Level() + 1, 30, id.Level() + g.rng.Intn(31-id.Level())}[g.rng.Intn(3)])
 	}
 	seen := map[int]bool{}
 	for _, l := range lv {
@@ -305,7 +361,7 @@ func (g *gen) ijCases() {
 		vals = append(vals, g.rng.Intn(M))
 	}
 	for f := 0; f < 6; f++ {
-		for q := 0; q < 14*g.budget; q++ {
+		for q := 0; q < 25*g.budget; q++ {
 			i, j := vals[g.rng.Intn(len(vals))], vals[g.rng.Intn(len(vals))]
 			id := s2.VerifC01CellIDFromFaceIJ(f, i, j)
 			key := fmt.Sprintf("%d/%d/%d", f, i, j)
@@ -316,7 +372,7 @@ func (g *gen) ijCases() {
 		}
 		// wrap: just outside each of the four sides, corners, far outside (clamped)
 		out := []int{-1, M, -2, M + 1, -M, 2 * M, -(1 << 31), 1<<31 - 1}
-		for q := 0; q < 10*g.budget; q++ {
+		for q := 0; q < 25*g.budget; q++ {
 			var i, j int
 			switch g.rng.Intn(4) {
 			case 0:
@@ -425,7 +481,7 @@ func (g *gen) pointSet() [][3]float64 {
 			}
 		}
 	}
-	n := 40 * g.budget
+	n := 90 * g.budget
 	for q := 0; q < n; q++ {
 		f := g.rng.Intn(6)
 		// u or v on a grid line +- ulps, the other random or also on a grid line
